@@ -1,0 +1,72 @@
+//go:build verif
+
+// Contracts for package history, checked by /verif/govc (comment-only file; compiled only
+// with the build tag "verif", which no build of the application uses).
+package history
+
+//@ pure func wfHist(sh *SearchHistory) bool = sh.MaxSize >= 1 && len(sh.Entries) <= sh.MaxSize
+
+//@ func NewSearchHistory
+//@   ensures[C16.new-wf] result != nil && wfHist(result)
+//@   ensures[C16.new-max] result.MaxSize == (maxSize > 0 ? maxSize : 100)
+//@   ensures[C16.new-empty] len(result.Entries) == 0
+
+// AddEntry on a well-formed history: bounded, chronological, an immediate repeat updates the
+// last entry, the newest entry is the recorded search, older entries keep their order.
+//@ func (*SearchHistory).AddEntry
+//@   requires wfHist(sh)
+//@   modifies sh.*, sh.Entries[*]
+//@   ensures[C16.add-wf] wfHist(sh)
+//@   ensures[C16.add-max-unchanged] sh.MaxSize == old(sh.MaxSize)
+//@   ensures[C16.add-newest] len(sh.Entries) >= 1 && sh.Entries[len(sh.Entries)-1].Query == query && sh.Entries[len(sh.Entries)-1].ResultsCount == resultsCount && sh.Entries[len(sh.Entries)-1].Context == context
+//@   ensures[C16.add-collapse] old(len(sh.Entries)) > 0 && old(sh.Entries[len(sh.Entries)-1].Query) == query ==> len(sh.Entries) == old(len(sh.Entries)) && (forall k int :: 0 <= k && k < len(sh.Entries)-1 ==> sh.Entries[k] == old(sh.Entries[k]))
+//@   ensures[C16.add-append] !(old(len(sh.Entries)) > 0 && old(sh.Entries[len(sh.Entries)-1].Query) == query) ==> len(sh.Entries) == min(old(len(sh.Entries))+1, sh.MaxSize)
+//@   ensures[C16.add-suffix] !(old(len(sh.Entries)) > 0 && old(sh.Entries[len(sh.Entries)-1].Query) == query) ==> (forall k int :: 0 <= k && k < len(sh.Entries)-1 ==> sh.Entries[k] == old(sh.Entries)[k + (old(len(sh.Entries)) + 1 - len(sh.Entries))])
+
+// Load: whatever the file holds, the history is well-formed afterwards (the CLI ignores Load's
+// error and records the search regardless).
+//@ func (*SearchHistory).Load
+//@   requires wfHist(sh)
+//@   modifies sh.*, sh.Entries[*]
+//@   ensures[C16.load-wf] wfHist(sh)
+
+//@ func (*SearchHistory).GetRecentQueries
+//@   ensures[C16.recent-len] len(result) <= (limit > 0 ? limit : 10)
+//@   ensures[C16.recent-distinct] forall a, b int :: 0 <= a && a < b && b < len(result) ==> result[a] != result[b]
+//@   ensures[C16.recent-from-entries] forall a int :: 0 <= a && a < len(result) ==> (exists k int :: 0 <= k && k < len(sh.Entries) && sh.Entries[k].Query == result[a])
+//@ loop 1
+//@   invariant -1 <= i && i < len(sh.Entries)
+//@   invariant limit >= 1 && len(queries) <= limit && fresh(queries)
+//@   invariant forall a int :: 0 <= a && a < len(queries) ==> (queries[a] in seen) && seen[queries[a]]
+//@   invariant forall q string :: (q in seen) && seen[q] ==> (exists a int :: 0 <= a && a < len(queries) && queries[a] == q)
+//@   invariant forall a, b int :: 0 <= a && a < b && b < len(queries) ==> queries[a] != queries[b]
+//@   invariant forall a int :: 0 <= a && a < len(queries) ==> (exists k int :: 0 <= k && k < len(sh.Entries) && sh.Entries[k].Query == queries[a])
+//@   decreases i + 1
+
+//@ func (*SearchHistory).GetStats
+//@   ensures[C16.stats-total] result.TotalSearches == len(sh.Entries)
+
+//@ func (*SearchHistory).getUniqueQueries
+//@   ensures result != nil && fresh(result)
+//@   ensures[C16.unique-exact] forall q string :: (q in result) <==> (exists k int :: 0 <= k && k < len(sh.Entries) && sh.Entries[k].Query == q)
+//@ loop 1
+//@   invariant unique != nil && fresh(unique)
+//@   invariant forall q string :: (q in unique) <==> (exists k int :: 0 <= k && k < $i && sh.Entries[k].Query == q)
+
+//@ func (*SearchHistory).Clear
+//@   modifies sh.*
+//@   ensures[C16.clear-empty] len(sh.Entries) == 0 && sh.MaxSize == old(sh.MaxSize)
+
+// GetTopQueries: at most limit (default 10) rows, each a query of the history with a count of at
+// least one, ordered by count, no query twice.
+//@ func (*SearchHistory).GetTopQueries
+//@   ensures[C16.top-len] len(result) <= (limit > 0 ? limit : 10)
+//@   ensures[C16.top-from-entries] forall a int :: 0 <= a && a < len(result) ==> result[a].Count >= 1 && (exists k int :: 0 <= k && k < len(sh.Entries) && sh.Entries[k].Query == result[a].Query)
+//@   ensures[C16.top-ordered] forall a, b int :: 0 <= a && a < b && b < len(result) ==> result[a].Count >= result[b].Count
+//@ loop 1
+//@   invariant frequency != nil && fresh(frequency) && lastSeen != nil && fresh(lastSeen) && frequency != lastSeen
+//@   invariant forall q string :: (q in frequency) <==> (exists k int :: 0 <= k && k < $i && sh.Entries[k].Query == q)
+//@   invariant forall q string :: (q in frequency) ==> frequency[q] >= 1 && frequency[q] <= $i
+//@ loop 2
+//@   invariant fresh(queryFreqs) && len(queryFreqs) == $n
+//@   invariant forall a int :: 0 <= a && a < len(queryFreqs) ==> (queryFreqs[a].Query in frequency) && queryFreqs[a].Count == frequency[queryFreqs[a].Query]
